@@ -25,6 +25,8 @@ CONFIG = {
     "timeout_quick": 600,
     "timeout_thorough": 3000,
     "assumptions": [
+        "optional callbacks: which of PreCopy/PostCopy/OnCopySkipped/OnMounted/MountFrom (and FindSuccessors, MapRoot) are nil is chosen per run, including all nil = default options; a recorded trace then has no events for nil callbacks and is elaborated by Model/CopyOpt.step_opt (the invocation points of nil callbacks are inserted, an event of a nil callback is rejected); the *_any_callbacks theorems hold for every such choice",
+        "ExtendedCopyGraph / ExtendedCopy: the roots above the node (generator's predecessor relation; findRoots itself is C03's) are the model's c_root :: c_xroots, dispatched together and sharing tracker, proxy and limiter; the final Tag of ExtendedCopy is checked by the oracle only",
         "content.Successors (encoding/json decoding of the five manifest kinds) returns the generator's edge list: a parameter `g_succ` of the theorems; checked on every run by trace acceptance (only dispatched successors may be probed) and by dag.SelfTest",
         "standing hypothesis (explicit in the model): during the call the destination is written only by the call itself and never deletes; the source is immutable",
         "a destination accepts a push only for bytes matching the descriptor and the source serves the bytes its descriptor names (C05); byte identity is evaluated by the oracle on the real stores, not in the model",
